@@ -4,6 +4,7 @@ import Marwood.Lemmas.TotalLength
 import Marwood.Lemmas.TotalPrelude
 import Marwood.Lemmas.EqualTotal
 import Marwood.Lemmas.StackWFNoPanic
+import Marwood.Lemmas.NoPanicMain
 import Marwood.Proofs.C07
 import Marwood.Proofs.C11
 import Marwood.Proofs.C20
@@ -1253,5 +1254,205 @@ theorem step_panic_sites_concrete (ext : Vm.Concrete.ExtOps) (ecl : Vm.Concrete.
     m = "restore_continuation: split_at_mut out of range" ∨ m = "apply: list longer than fuel (cyclic list)" := by
   rw [← Vm.Concrete.step_gops ext hok] at h
   exact Vm.step_pin pl hw m h
+
+/-! ### T06.6 closed for the modelled part of the VM: `run_one` never panics on reachable states
+
+`Lemmas/NoPanic*.lean`. `step_panic_sites_concrete` above needs `CalleeOk s` and `PanicLaws` and leaves two sites.
+Since then `CalleeOk` is a theorem (`PInv`), and here the rest is discharged **for the concrete machine**
+`machine ext force` (`run_one` over `concreteOps ext`, `run_gc` = `cgc force`):
+
+* `PanicLaws`' facts about modelled operations are theorems at the arguments the instruction hands the operation
+  (`Vm.PanicFacts`, `panicFacts_concrete`): `%ip` designates a lambda; VARARG's `args.len() - 1`
+  (`concrete_vararg_info`, from the new heap clause `HeapNP`: a lambda whose code contains VARARG has a formal);
+  CLOSURE's environment construction (`concrete_makeClosure_np`: no `IofArgument` source — `CInvG.noIofArg` — so
+  `load_arg` is never evaluated; `IofEnvironment(k)` within the current environment); ENTER's
+  (`concrete_makeActivation_np`: `argc - arg` from `HeapNP`, `bp - (argc - arg)` from WF-stack, one closure-environment
+  slot per environment-map entry). VPUSH, the generic builtins and `eval`'s compiler are the parameter
+  `ExtNoPanic ext` (T06.2's subject), with `ExtGood`'s premises.
+* the residual site `restore_continuation: split_at_mut out of range` is **excluded**: `ContFits` (every
+  continuation cell's stack copy is no longer than the current stack) is an invariant — `call/cc` copies
+  `stack[0..=sp]`, nothing else creates a continuation, the stack never shrinks (`step_len_mono`), the collector
+  touches neither, `Stack::clear` and the error reset keep the capacity (`npinv_step`, `npinv_gc`, `npinv_onDone`,
+  `npinv_onError`).
+* the residual site `apply: list longer than fuel` is the MODEL's guard (100000), not a panic site of `run_one`;
+  it is the one exception in the statements, and `apply_guard_only_on_long_lists` characterises it.
+
+What remains a hypothesis about states: `EnvSlots s'` — the two slot-index `expect`s of `LexicalEnvironment::get/put`
+in CLOSURE / ENTER at the instruction under `ip` (the current environment has a slot for every `IofEnvironment` index
+of the lambda being closed over; the closure environment has one per environment-map entry). It relates `ep` and
+closure environments to code objects through the frame chain, which neither WF-stack nor the heap invariants
+record; the stream `safe-side-conditions` evaluates it on every real state (`np-env-slots`). -/
+
+section NoPanicMachine
+open Marwood.Vm Marwood.Vm.Concrete Marwood.Lemmas.Sim Marwood.Lemmas.Good
+
+/-- `PanicLaws.vararg_info` for the concrete heap: a theorem from `HeapNP` -/
+theorem concrete_vararg_info (ext : ExtOps) {h : CHeap} (hn : HeapNP h) {l : Nat} {lam : CLambda}
+    (hl : lambdaAt h l = some lam) {o : Nat} (ho : lam.bc[o]? = some (.opcode .varArg)) :
+    ∃ info, (concreteOps ext).lambdaInfo h l = some info ∧ 1 ≤ info.argc := by
+  refine ⟨⟨lam.args.length⟩, ?_, (hn.cell (lambdaAt_iff.mp hl)).vararg (List.mem_of_getElem? ho)⟩
+  show (lambdaAt h l).map (fun lam => (⟨lam.args.length⟩ : LambdaInfo)) = _
+  rw [hl]; rfl
+
+/-- `PanicLaws.makeClosure_np` for the concrete heap, at the arguments CLOSURE uses -/
+theorem concrete_makeClosure_np {h : CHeap} {lam ep bp : Nat} {st : Stack}
+    (hno : ∀ l, lambdaAt h lam = some l → ∀ x ∈ l.envmap, ∀ a, x.2 ≠ Source.iofArg a)
+    (hk : ∀ l ss, lambdaAt h lam = some l → envAt h ep = some ss → ∀ x ∈ l.envmap, ∀ k,
+      x.2 = Source.iofEnv k → k < ss.length) :
+    ∀ m, makeClosure h lam ep bp st ≠ .panic m :=
+  fun m hp => makeClosure_np hno hk m hp
+
+/-- `PanicLaws.makeActivation_np` for the concrete heap, at the arguments ENTER uses -/
+theorem concrete_makeActivation_np {h : CHeap} {lam env bp : Nat} {st : Stack}
+    (hlen : ∀ l ss, lambdaAt h lam = some l → envAt h env = some ss → l.envmap.length ≤ ss.length)
+    (harg : ∀ l, lambdaAt h lam = some l → ∀ x ∈ l.envmap, ∀ a, x.2 = Source.arg a → a ≤ l.args.length)
+    (hb : ∀ l, lambdaAt h lam = some l → l.args.length ≤ bp) :
+    ∀ m, makeActivation h lam env bp st ≠ .panic m :=
+  fun m hp => makeActivation_np hlen harg hb m hp
+
+/-- **`ContFits` is an invariant of `run_one`** (with the lambda clause): `call/cc` copies at most the current
+    capacity, nothing else creates a continuation object, the capacity never decreases -/
+theorem contFits_step (ext : ExtOps) (en : ExtNoPanic ext) {s s' : St CHeap} {b : Bool}
+    (hs : step (concreteOps ext) s = .ok (s', b)) (i : NPInv s) : NPInv s' := npinv_step en hs i
+
+/-- **T06.6, closed: `step` never panics on a state reachable from a good initial state of the concrete machine** —
+    except at the model's own fuel guard in `apply`. Hypotheses: the laws of the unmodelled parts (`ExtLaws`,
+    `ExtGood`, `ExtProc`, `ExtCodeLawsV` through `VmOkP`, `ExtNoPanic`), the bundled invariant and the two further
+    clauses of the INITIAL state, the physical size bound, and the slot clause of the state examined. -/
+theorem step_never_panics_machine (ext : ExtOps) (ecl : ExtCodeLawsV ext) (force : Bool) (el : ExtLaws ext)
+    (eg : ExtGood ext) (ep : ExtProc ext) (en : ExtNoPanic ext) {s0 : St CHeap} (h0 : VmOkP ext ecl s0)
+    (n0 : NPInv s0) (sb : SizeBounded (machine ext force) s0) {s : St CHeap}
+    (hr : Reaches (machine ext force) s0 s) (es : EnvSlots s) (m : String)
+    (hp : step (concreteOps ext) s = .panic m) : m = "apply: list longer than fuel (cyclic list)" :=
+  step_never_panics_reachable force el eg ep en ⟨h0, n0⟩ sb hr es m hp
+
+/-- **the guard of `apply` fires only on a list of 100000 or more pairs, or a cyclic one**: if `step` panics in
+    such a state, the cdr chain from the stack cell under `apply`'s argument count runs through at least 100000 pair
+    cells of the heap (`LongChain`); a proper list with fewer elements (`EndsWithin`) never trips it
+    (`pushList_ends_np`) -/
+theorem apply_guard_only_on_long_lists (ext : ExtOps) (ecl : ExtCodeLawsV ext) (force : Bool) (el : ExtLaws ext)
+    (eg : ExtGood ext) (ep : ExtProc ext) (en : ExtNoPanic ext) {s0 : St CHeap} (h0 : VmOkP ext ecl s0)
+    (n0 : NPInv s0) (sb : SizeBounded (machine ext force) s0) {s : St CHeap}
+    (hr : Reaches (machine ext force) s0 s) (es : EnvSlots s) (m : String)
+    (hp : step (concreteOps ext) s = .panic m) :
+    LongChain s.heap 100000 (deref s.heap (s.stack.cellAt (s.stack.sp - 1))) := by
+  obtain ⟨h1, h2⟩ := vmOkNP_reaches force el eg ep en ⟨h0, n0⟩ sb s hr
+  exact (step_apply_guard_long en h1 h2 es m hp).2
+
+/-- a long chain and a list that ends earlier exclude each other -/
+theorem longChain_not_endsWithin {h : CHeap} : ∀ {k : Nat} {v : Vm.VCell}, LongChain h k v → ¬ EndsWithin h k v := by
+  intro k v hl
+  induction hl with
+  | zero v => intro he; cases he
+  | pair car cdr _ ih => intro he; cases he with | pair _ _ hc => exact ih hc
+
+/-- **`run_count` never ends in a panic**: any budget, any number of instructions -/
+theorem run_never_panics_machine (ext : ExtOps) (ecl : ExtCodeLawsV ext) (force : Bool) (el : ExtLaws ext)
+    (eg : ExtGood ext) (ep : ExtProc ext) (en : ExtNoPanic ext) {s0 : St CHeap} (h0 : VmOkP ext ecl s0)
+    (n0 : NPInv s0) (sb : SizeBounded (machine ext force) s0) (esl : EnvSlotsAlong (machine ext force) s0)
+    (count : Option Nat) (fuel c : Nat) {m : String} {sf : St CHeap}
+    (hr : runLoop (machine ext force) count fuel c s0 = .error (.panic m) sf) :
+    m = "apply: list longer than fuel (cyclic list)" :=
+  runLoop_never_panics_machine force el eg ep en ⟨h0, n0⟩ sb esl count fuel c hr
+
+/-- **one evaluation (`run_count` with its epilogues) never fails with a panic** -/
+theorem eval_never_panics_machine (ext : ExtOps) (ecl : ExtCodeLawsV ext) (force : Bool) (el : ExtLaws ext)
+    (eg : ExtGood ext) (ep : ExtProc ext) (en : ExtNoPanic ext) {s0 : St CHeap} (h0 : VmOkP ext ecl s0)
+    (n0 : NPInv s0) (sb : SizeBounded (machine ext force) s0) (esl : EnvSlotsAlong (machine ext force) s0)
+    (count : Option Nat) (fuel : Nat) {m : String} {s1 : St CHeap}
+    (hr : runEval (concreteOps ext) (cgc force) count fuel s0 = .failed (.panic m) s1) :
+    m = "apply: list longer than fuel (cyclic list)" :=
+  runEval_never_panics_machine force el eg ep en ⟨h0, n0⟩ sb esl count fuel hr
+
+/-- the faults of a history of evaluations (`runHistory` of C07 returns the final state only) -/
+def histFaults (ext : ExtOps) (force : Bool) : List C07.Job → St CHeap → List Fault
+  | [], _ => []
+  | j :: js, s =>
+    match runEval (concreteOps ext) (cgc force) none j.fuel (prepare s j.entry) with
+    | .value s' => histFaults ext force js s'
+    | .failed f s' => f :: histFaults ext force js s'
+    | .paused s' => histFaults ext force js s'
+    | .fuel => histFaults ext force js s
+
+/-- every job of the history starts — `ip` pointed at its entry lambda — in a state satisfying the bundled invariant
+    of C03/C04/C07/C13 (as in `failed_eval_equivalent_later_closed`: re-establishing `VmOkP` after `prepare_eval` is
+    the compiler's law), within the size bound, the slot clause along its run. The two clauses `NPInv` are NOT asked
+    again: they are carried from the first job to every later one. -/
+def HistGood (ext : ExtOps) (ecl : ExtCodeLawsV ext) (force : Bool) : List C07.Job → St CHeap → Prop
+  | [], _ => True
+  | j :: js, s =>
+    (VmOkP ext ecl (prepare s j.entry) ∧ SizeBounded (machine ext force) (prepare s j.entry) ∧
+      EnvSlotsAlong (machine ext force) (prepare s j.entry)) ∧
+    match runEval (concreteOps ext) (cgc force) none j.fuel (prepare s j.entry) with
+    | .value s' => HistGood ext ecl force js s'
+    | .failed _ s' => HistGood ext ecl force js s'
+    | .paused s' => HistGood ext ecl force js s'
+    | .fuel => HistGood ext ecl force js s
+
+/-- **no history of evaluations makes the modelled VM panic**: any interleaving of succeeding and failing
+    evaluations; continuation objects captured in one evaluation and kept (in a global, a closure) fit the stack of
+    every later evaluation because `Stack::clear` and the error reset keep the capacity -/
+theorem history_never_panics_machine (ext : ExtOps) (ecl : ExtCodeLawsV ext) (force : Bool) (el : ExtLaws ext)
+    (eg : ExtGood ext) (ep : ExtProc ext) (en : ExtNoPanic ext) :
+    ∀ (js : List C07.Job) (s : St CHeap), NPInv s → HistGood ext ecl force js s →
+      ∀ f ∈ histFaults ext force js s, ∀ m, f = Fault.panic m → m = "apply: list longer than fuel (cyclic list)" := by
+  intro js
+  induction js with
+  | nil => intro s _ _ f hf; cases hf
+  | cons j js ih =>
+    intro s n0 hg f hf m hm
+    obtain ⟨⟨hv, sb, esl⟩, hrest⟩ := hg
+    have n1 : NPInv (prepare s j.entry) := npinv_prepare_entry n0 j.entry
+    obtain ⟨k1, k2, k3⟩ := npinv_runEval force en n1 none j.fuel
+    simp only [histFaults] at hf
+    cases hr : runEval (concreteOps ext) (cgc force) none j.fuel (prepare s j.entry) with
+    | value s' =>
+      rw [hr] at hf hrest
+      exact ih s' (k1 s' hr) hrest f hf m hm
+    | failed f' s' =>
+      rw [hr] at hf hrest
+      rcases List.mem_cons.mp hf with e | hf'
+      · subst e; subst hm
+        exact runEval_never_panics_machine force el eg ep en ⟨hv, n1⟩ sb esl none j.fuel hr
+      · exact ih s' (k2 f' s' hr) hrest f hf' m hm
+    | paused s' =>
+      rw [hr] at hf hrest
+      exact ih s' (k3 s' hr) hrest f hf m hm
+    | fuel =>
+      rw [hr] at hf hrest
+      exact ih s n0 hrest f hf m hm
+
+/-! #### non-vacuity -/
+
+/-- the law of the unmodelled parts is satisfiable (the always-failing parameter set of C13) -/
+theorem failingExt_noPanic : ExtNoPanic C13.failingExt where
+  builtinEval_np := fun _ _ _ _ _ => pin_err _
+  compileEval_np := fun _ _ _ _ => pin_err _
+  vectorPush_np := fun _ _ _ _ _ _ => pin_err _
+  builtinEval_cont := fun _ h => (by cases h)
+  compileEval_cont := fun _ h => (by cases h)
+  vectorPush_cont := fun _ h => (by cases h)
+  builtinEval_lam := fun h => (by cases h)
+  compileEval_lam := fun h => (by cases h)
+  vectorPush_lam := fun h => (by cases h)
+
+open Marwood.Lemmas.Good.Demo in
+/-- every hypothesis of `run_never_panics_machine` holds of the demo machine: its run does not panic -/
+example (count : Option Nat) (fuel c : Nat) (m : String) (sf : St CHeap) :
+    runLoop (machine C13.failingExt false) count fuel c (sHalt 0) ≠ .error (.panic m) sf := by
+  intro hr
+  have := run_never_panics_machine C13.failingExt C13.failingExt_codeLawsV false C13.failingExt_laws
+    C13.failingExt_good C13.failingExt_proc failingExt_noPanic (sHalt_vmOkP _ _) (sHalt_npinv 0)
+    (sHalt_sizeBounded _) (sHalt_envSlotsAlong _) count fuel c hr
+  subst this
+  -- the demo program is `HALT`: it has no `apply`
+  obtain ⟨hreach, hst⟩ := (runLoop_ends (ext := C13.failingExt) false count fuel c (sHalt 0)).1 _ _ hr
+  rcases sHalt_reaches _ hreach with h | h <;> subst h <;> cases hst
+
+open Marwood.Lemmas.Good.Demo in
+example : NPInv (sHalt 0) ∧ EnvSlots (sHalt 0) ∧ ExtNoPanic C13.failingExt :=
+  ⟨sHalt_npinv 0, sHalt_envSlots 0 (.inl rfl), failingExt_noPanic⟩
+
+end NoPanicMachine
 
 end Marwood.Proofs.C06
